@@ -47,7 +47,13 @@ where
         expr: v1beta0::Expression,
     ) -> Result<v1beta0::Expression, crate::reduce::Error> {
         match expr {
-            v1beta0::Expression::EvalCompiler(op) => Ok(self.reduce_op(*op)?),
+            v1beta0::Expression::EvalCompiler(op) => {
+                // an operand may be an applied but not yet reduced parameter; reduce it
+                // here so that the outcome does not depend on where `reduce` was
+                // interleaved with the other stages
+                let op = crate::reduce::Apply::reduce(*op)?;
+                Ok(self.reduce_op(op)?)
+            }
             _ => Ok(expr),
         }
     }
